@@ -29,6 +29,13 @@ def main():
     with scratch() as d:
         recs = run_cjobs(MODULES, eff_seed(), cap=10 if quick else 40, workdir=d,
                          derived=3 if quick else 25, select=sel)
+        if not a.only:
+            # the final procedure of each test of the repository's own test files (host-realisable ones), recorded
+            from ..testrec import add_test_edges
+            _, other = add_test_edges(rep, a.tier, d, units=False, fwd=False, purity=False, c_units=30 if quick else 400)
+            trecs = [o for o in other if o.get("kind") == "cunit"]
+            rep.add_cov(repo_test_final_procedures_compiled=sum(1 for o in trecs if o.get("status") == "compiled"))
+            recs += trecs
         units = [r["unit"] for r in recs if r["status"] == "compiled"]
         owners = [r for r in recs if r["status"] == "compiled"]
         res = run_units(units, d, stepbound=8000 if quick else 60000)
@@ -64,7 +71,8 @@ def main():
     rep.cov["rule"] = ("one program = one procedure (corpus as written, or after a randomly chosen accepted schedule) compiled by the "
                        "real backend, built with gcc -O1 + ASan/UBSan, executed on each admissible input of the bounded domain "
                        "(dense and offset/stride-2 windows, negative index arguments); every execution's complete final state "
-                       "(all argument cells incl. cells outside windows, scalars, context struct) is one trace event validated by TLC")
+                       "(all argument cells incl. cells outside windows, scalars, context struct) is one trace event validated by TLC; the "
+                       "final procedure of every test of the repository's own test files that the host can realise is treated the same way")
     rep.cov["compile_errors"] = sorted({(r["prog"], r.get("exc")) for r in recs if r["status"] == "compile-error"})[:20]
     rep.assumptions += ["value mode Z: small integer data, exactly representable in every precision used",
                         "gcc 12 -O1 with sanitizers is the 'ordinary C compiler'"]
